@@ -58,6 +58,10 @@ def run(ctx):
                           "fmt": [ctx.rng.choice(["C", "C", "U"]) for _ in range(k)]})
         if k == 2:
             cases.append({"kind": "nary", "op": "lf", "ops": ops, "emb": ctx.rng.choice(["fiber", "tensor1"]), "fmt": [ctx.rng.choice(["C", "U"]), ctx.rng.choice(["C", "U"])]})
+    # a - b with b the lazy result of another co-iteration (differences of intersections)
+    for c in list(cases):
+        if c["kind"] == "pair" and c["op"] == "sub" and c.get("fmt", ["C", "C"])[1] == "C" and ctx.rng.random() < 0.3:
+            cases.append(dict(c, lazyb=1))
     # the same co-iterations over ranks whose leaf default is 2 (a stored 2 counts as absent, a stored 0 is content)
     for c in list(cases):
         if c["emb"] in ("fiber", "tensor1") and ctx.rng.random() < (0.2 if ctx.quick else 0.5):
@@ -67,7 +71,7 @@ def run(ctx):
             cases.append(dict(c, dflts=[ctx.rng.choice([0, 2, 3]) for _ in c["ops"]]))
     cases += prefix_cases(ctx, 300 if ctx.quick else 4000)
     part = family.run_family(ctx, "C04", cases, "harness.exec_coiter", "CoiterTrace.tla", "CoiterTrace.cfg",
-                             op_of=lambda c, lg, st: c["op"], where_of=lambda c, lg, st: f"{c['kind']}:{c['emb']}:{''.join(c.get('fmt') or [])}" + (":dflt2" if c.get("dflt") else "") + (":dflts" if c.get("dflts") else ""),
+                             op_of=lambda c, lg, st: c["op"], where_of=lambda c, lg, st: f"{c['kind']}:{c['emb']}:{''.join(c.get('fmt') or [])}" + (":dflt2" if c.get("dflt") else "") + (":dflts" if c.get("dflts") else "") + (":lazyb" if c.get("lazyb") else ""),
                              nontrivial=lambda c, lg: any(t["e"] for t in c["ops"]))
     res = {"design": design, "states": r["stats"]["distinct"], "transitions": r["stats"]["generated"], "exhaustive": False,
            "rule": "a case is one co-iteration (operator, operands, embedding, rank formats) executed on the implementation; pairs are emitted by TLC "
